@@ -15,7 +15,7 @@ Expr: Expr '+' Term | Term;
 Term: Term '*' Factor | Factor;
 Factor: '(' Expr ')' | 'INT';
 """, tags=["lr1", "rec"], inputs=["INT + INT", "INT + + INT", "( INT + INT", "INT INT", "INT + INT )", "( ( INT",
-                                    "INT + * INT ) INT", ""])
+                                    "INT + * INT ) INT", "", "( ( INT ) ) )", "( ( INT ) )", "( ( ( INT ) ) + INT ) )", "( INT ) )"])
 
 add("calc-avoid", """%start Expr
 %avoid_insert 'INT'
@@ -286,6 +286,17 @@ add("rec-insert-chain", "%start S\n%right 'a'\n%%\nS: 'a' 'a' S 'a' | 'a' 'a' A 
     inputs=["a a a", "a a a a a a", "a"], costs=[155, 200])
 add("rec-insert-chain255", "%start S\n%right 'a'\n%%\nS: 'a' 'a' S 'a' | 'a' 'a' A 'a' | 'a' 'a';\nA: S | S A | 'a';\n", tags=["rec", "conflicts"],
     inputs=["a a a", "a a a a a"], costs=[255, 255])
+
+# ---- shapes that only a random instance caught in the second seeding round ----
+# an accept state whose other actions all reduce one (rule, length): not a reduce-only state
+add("accept-reduce-only", "%start S\n%%\nS: S A 'x' | ;\nA: ;\n", tags=["lr1", "nullable"], inputs=["", "x", "x x", "x x x"])
+add("accept-reduce-only2", "%start S\n%%\nS: S 'y' | S B 'x' | ;\nB: ;\n", tags=["lr1", "nullable", "conflicts"], inputs=["", "x", "y x", "x y"])
+# rules nullable only through productions made of nullable rules, declared top-down
+add("nullable-units", "%start S\n%%\nS: A 'a' | 'b' A;\nA: B;\nB: Cc;\nCc: ;\n", tags=["lr1", "nullable"], inputs=["a", "b", "b a", ""])
+add("nullable-units2", "%start S\n%%\nS: D A 'x';\nD: 'd';\nA: B B;\nB: Cc Cc;\nCc: E;\nE: ;\n", tags=["lr1", "nullable"], inputs=["d x", "d", "x"])
+# the last token of the production has no precedence, an earlier one has: no production precedence
+add("prec-last-token", "%start E\n%right '?'\n%%\nE: E '?' E ':' E | 'n';\n", tags=["prec", "conflicts"], inputs=["n ? n : n", "n ? n : n ? n : n", "n ? n ? n : n : n"])
+add("prec-last-token2", "%start E\n%left '+'\n%left '*'\n%%\nE: E '+' E 'k' | E '*' E | 'n' | E 'k';\n", tags=["prec", "conflicts"], inputs=["n + n k", "n * n + n k", "n k k"])
 
 
 def select(tags=None, exclude=()):
